@@ -418,3 +418,8 @@ REG.add(Contract(f"{LRM}._create_module_name_regex_conversion_mapping", module=M
                      "forall(Node, Mod, lambda k, x: implies(k in result, (x in result[k]) == (((k in self._conversion_mapping_importers) and (x in self._conversion_mapping_importers[k])) or "
                      "(((k, self._conversion_mapping_importees[k]) in seen) and (x in self._conversion_mapping_importees[k])))))"])},
                  properties=["C05"]))
+
+# ================================================================ LayerRule.__init__ (C16: a fresh layer rule has neither an architecture nor an inner rule)
+REG.add(Contract(f"{LR}.__init__", module=M_LA, kind="method", params=dict(self=LR, rule_matcher_class="Opaque[Class]"), returns="None", modifies=["self"],
+                 defaults=dict(rule_matcher_class="LayerRuleMatcher"),
+                 ensures=["is_none(self._rule)", "is_none(self._architecture)", "self._rule_matcher_class == rule_matcher_class"], properties=["C05", "C16", "C13"]))
